@@ -121,6 +121,8 @@ def skey(n, serial_of_slot=None):
   """Structural identity of an expression: callable + arguments, flags ignored."""
   t = n[0]
   if t == 'c':
+    if isinstance(n[1], lib.Cfg):
+      return ('cfg', n[1].tag)     # one Cfg object per tag and history; copies keep the tag
     return ('c', n[1])
   if t == 't':
     return ('t', n[1])
@@ -153,7 +155,7 @@ def real_skey(x, serial_of_id, lazy_fns):
     elif isinstance(v, lazy_fns.LazyObject) and v.cache_result:
       head = ('ref', serial_of_id.get(v.id, ('unknown', v.id)))
     elif isinstance(v, lazy_fns.LazyObject):
-      head = ('traced', getattr(v.value, '__name__', repr(v.value)))
+      head = ('traced', lib.local_name(v.value) or getattr(v.value, '__name__', repr(v.value)))
     else:
       head = ('plain', repr(v))
     return ('call', head,
@@ -163,6 +165,8 @@ def real_skey(x, serial_of_id, lazy_fns):
     if x.cache_result:
       return ('ref', serial_of_id.get(x.id, ('unknown', x.id)))
     return ('t', x.value)
+  if isinstance(x, lib.Cfg):
+    return ('cfg', x.tag)
   return ('c', x)
 
 
@@ -180,7 +184,7 @@ def build(n, lazy_fns, refs=None, explicit_false=False):
   if t == 'ref':
     return refs[n[1]]
   if t in ('call', 'callres'):
-    head = lazy_fns.trace(lib.LIB[n[1]]) if t == 'call' else \
+    head = lazy_fns.trace(lib.callee(n[1])) if t == 'call' else \
         build(n[1], lazy_fns, refs, explicit_false)
     # Structurally equal argument nodes of one call share ONE lazy object (as in
     # `t = trace(counter)(); trace(pair)(t, t)`); every occurrence must still be
@@ -308,7 +312,7 @@ class Model:
     t = n[0]
     pending = []
     if t == 'call':
-      fn = lib.LIB[n[1]]
+      fn = lib.callee(n[1])
     else:
       fn = self._eval_of(n[1], pending)
     args = [self._eval(a) for a in n[2]]
@@ -447,6 +451,51 @@ def gen_tree(rng, max_depth=5):
     if depth(node) <= max_depth:
       return node
   return ('call', 'f', (('c', 1),), (), False, False)
+
+
+def has_identity_hashed(n):
+  """Does a CACHED call in n have a by-value callable ('lam:'/'clo:'/'par:') or a Cfg argument?"""
+  t = n[0]
+  if t in ('c', 't', 'ref'):
+    return False
+  if t in ('call', 'callres'):
+    kids = list(n[2]) + [v for _, v in n[3]] + ([n[1]] if t == 'callres' else [])
+    if n[4]:
+      if t == 'call' and ':' in n[1]:
+        return True
+      if any(k[0] == 'c' and isinstance(k[1], lib.Cfg) for k in kids):
+        return True
+    return any(has_identity_hashed(k) for k in kids)
+  return has_identity_hashed(n[1])
+
+
+def gen_ident_pool(rng):
+  """Small cached expressions whose callable or argument hashes by identity (+ controls)."""
+  pool = []
+  for i in range(rng.randint(2, 6)):
+    byval = rng.choice(['lam', 'clo', 'par']) + ':'
+    shape = rng.randrange(8)
+    if shape == 0:
+      node = ('call', byval + rng.choice(['tagged', 'f']), (('c', i),), (), True, False)
+    elif shape == 1:
+      extra = (('c', rng.choice(CONSTS[:9])),) if rng.random() < 0.4 else ()
+      node = ('call', 'use_cfg', (('c', lib.Cfg(i)),) + extra, (), True, False)
+    elif shape == 2:
+      node = ('call', 'use_cfg', (), (('cfg', ('c', lib.Cfg(i))),), True, False)
+    elif shape in (3, 4):
+      # a cached by-value "model loader" with an uncached mutating call on the result
+      node = ('callres', ('attr', ('call', byval + 'Acc', (('c', i),), (), True, False), 'add'),
+              (('c', rng.choice([1, 2])),), (), False, False)
+    elif shape == 5:
+      node = ('call', 'g', (('c', i), ('call', byval + 'tagged', (('c', i),), (), True, False)),
+              (), False, False)
+    elif shape == 6:       # control: importable callable, plain argument
+      node = ('call', 'tagged', (('c', i),), (), True, False)
+    else:                  # control: importable cached model + mutation
+      node = ('callres', ('attr', ('call', 'Acc', (('c', i),), (), True, False), 'add'),
+              (('c', 1),), (), False, False)
+    pool.append(node)
+  return pool
 
 
 def root_is_lazy(n):
